@@ -28,7 +28,9 @@ import (
 
 var reqToken = message.Token{0xa1, 0xb2}
 
-const reqMID = 0x1234
+// message ID of the harness's request; a variable so that a case can be repeated with another one when the connection's own
+// (randomly seeded) message-ID counter happens to produce the same value for an unrelated message
+var reqMID int32 = 0x1234
 
 func typeName(t message.Type) string {
 	switch t {
@@ -75,6 +77,19 @@ func buildReq(udp bool, con bool, v int64, extra ...message.OptionID) []byte {
 }
 
 func srvUDP(t *testing.T, con bool, v int64, code codes.Code, extra ...message.OptionID) (line string) {
+	for _, id := range []int32{0x1234, 0x5a5a, 0x0777} {
+		reqMID = id
+		coincidence := false
+		line = srvUDPOnce(t, con, v, code, &coincidence, extra...)
+		if !coincidence {
+			break
+		}
+	}
+	reqMID = 0x1234
+	return line
+}
+
+func srvUDPOnce(t *testing.T, con bool, v int64, code codes.Code, coincidence *bool, extra ...message.OptionID) (line string) {
 	synctest.Test(t, func(t *testing.T) {
 		set := "nocall"
 		cc, s := mem.NewUDPConn(mem.UDPOpts{Mutate: func(cfg *udpclient.Config) {
@@ -102,6 +117,10 @@ func srvUDP(t *testing.T, con bool, v int64, code codes.Code, extra ...message.O
 			mid := "own"
 			if m.MessageID() == reqMID {
 				mid = "req"
+				if m.Type() != message.Acknowledgement && m.Type() != message.Reset {
+					// a message with its own ID that happens to equal ours: repeat the case with another request ID
+					*coincidence = true
+				}
 			}
 			fmt.Fprintf(&b, " %s %d %s %s", typeName(m.Type()), m.Code(), mid, lp.Hex(m.Token()))
 		}
